@@ -221,7 +221,7 @@ func staticCounts(m int) int {
 	return m*m*m + 2
 }
 
-func runStaticScenario(res *vk.Result) {
+func runStaticScenario(res *vk.Result, dl time.Time) {
 	sc := res.Scenario("staticset")
 	ms := []int{2, 3, 4}
 	if vk.Thorough() {
@@ -232,7 +232,6 @@ func runStaticScenario(res *vk.Result) {
 		bs = append(bs, fmt.Sprintf("m=%d: n=0..%d", m, staticCounts(m)))
 	}
 	sc.Bound = "maxStaticSetMembers m with every member count n: " + strings.Join(bs, "; ") + " (both splitting branches: n<=m, m<n<m*m, n>=m*m incl. 3 levels at n>=(m-1)*m*m); listing via DirReader.StaticSet, Readdir(-1), index GetDirMembers/GetFileInfo, and an independent walk of the static-set JSON"
-	dl := vk.Deadline()
 	k := 0
 	for _, m := range ms {
 		for n := 0; n <= staticCounts(m); n++ {
